@@ -49,6 +49,10 @@ CHECKS = {
          "DESIGN.md §3 C15",
          "Held on the whole 3888-script grid (report outcome x quote outcome x status x OutLen x report data): success exactly when both requests succeed with result 0, status 0 and 0 < OutLen <= buffer size, returning exactly the first OutLen bytes the device wrote; the report request carries the caller's 64 bytes unchanged and the quote request the 1024-byte TD report, InLen 1024, Length = buffer size; every other outcome is an error without data or crash. Provider: supported => bytes and error value verbatim, called once; unsupported => device path tried (regular file / missing path); GetQuote == QuoteToProto(GetRawQuote).",
          "The real ioctl path of LinuxDevice is only exercised up to ENOTTY on a regular file."),
+ "C16": ("exploration", "sanitizer + monitor: Go race detector over unsynchronised concurrent use of one quote, plus deterministic before/after snapshots of every reachable byte slice up to capacity",
+         "DESIGN.md §3 C16",
+         "Held on what was executed: (a) around each of 9 read-only API operations on 8 subjects x 3 quote forms, no byte of any slice reachable from the message, the raw input or the validation options changed, spare capacity included (parsed quotes expose ~4 KB of it; built quotes carry canaries), and parsed messages / serialised bytes share no memory with their source; (b) in a -race build 8-32 goroutines share one quote at GOMAXPROCS 2/4/16: zero race reports with a go-tdx-guest frame; (c) all concurrent verdicts equal the solo verdicts.",
+         "The race detector sees only executed interleavings; it is happens-before based, so unsynchronised pairs are reported without a timing window. The check always runs the -race binary."),
  "C17": ("exploration", "runtime monitoring: model TSM client recording every directory / index / digest operation; offline checker replays each recorded history against a register model",
          "DESIGN.md §3 C17",
          "Held on every executed history: invalid requests fail without any mutating operation; valid requests produce exactly one digest write of exactly the requested digest (or SHA-384 of the log) to an entry bound to the requested index, re-using an existing entry; final registers equal the SHA-384 extend chains. All single requests over the index / length / hash alphabet, all 27,930 sequences of length <= 3 over a 30-symbol alphabet (every third in the quick tier), 2000+ random histories of length 4-12 with pre-existing entries and injected MkdirTemp / WriteFile failures.",
@@ -57,6 +61,18 @@ CHECKS = {
          "DESIGN.md §3 C14",
          "Held on every executed message: conversion fails whenever an SVN minimum exceeds 16 bits or a non-empty byte string (incl. minimum_tee_tcb_svn, RTMR and allowed-MR_TD entries) has the wrong length; every message that converts is applied to 4 quotes without panic, with the verdict of the reference evaluation of the message itself and of directly built options. Fields x {absent, empty, exact, short, long, doubled}, SVNs at 0/65535/65536/2^32-1, RTMR lists 0..5, allowed lists 0..4, nil policy and absent sub-policies, in memory and after a wire round trip.",
          "Same reference evaluator as C08."),
+ "C18": ("exploration", "runtime monitoring: event-log entry point on re-signed sample quotes with gate faults and RTMR bit flips; own SHA-384 replay of the log as oracle",
+         "DESIGN.md §3 C18",
+         "Held on every executed case: a firmware log state is returned only when reference verification, reference policy evaluation and an own replay of the sample log (over upstream's event parser) hold for every RTMR the log measures (RTMR0-2 in the sample); every signature-chain / trust / collateral fault, every policy mismatch, every sampled single-bit change of a measured RTMR (all bits in the thorough tier) on a correctly re-signed quote, and a wrong nonce return (nil, error); the untouched twin returns a state at all three levels.",
+         "One event log (the repository's sample); event-log bytes themselves are not mutated (upstream parser)."),
+ "C19": ("exploration", "runtime monitoring of the rebuilt tools/check binary as a child process: reference flag/config merge + reference verification + reference policy predict the exit code; in-process PCS behind HTTPS_PROXY",
+         "DESIGN.md §3 C19",
+         "Held on every executed command line (~290): exit 0 only when the reference says the quote verifies under the effective options and meets the effective policy; exact exit codes for single-fault runs (13 policy fields x config {absent, matching, mismatching, malformed} x flag {same}, config shapes incl. absent sub-messages in text and binary form, input formats, bundles, network none / reachable / dead proxy / single endpoint down / OutOfDate collateral, options from config vs flags); no crash marker on stderr, no death by signal; errors.As finds the typed fetch errors in the library's result.",
+         "The binary uses time.Now(); worlds are valid +-10 years. Unparsable quotes may exit 1 or 2 (README vs code)."),
+ "C20": ("fault_enumeration", "runtime monitoring: scripted wrapped getter recording monotonic attempt times; attempt-count and spacing oracle with timer-lateness calibration",
+         "DESIGN.md §3 C20",
+         "Held on the whole grid (timeout {0, 50 ms, 300 ms, 1 s} x cap {0, 1 ms, 20 ms, 100 ms, 5 s} x k failures then success / fail forever): the first success is returned intact with no further attempt, no gap exceeds cap + slack, the attempt count is no busy loop, and failure is reported within timeout + cap + slack. The thorough tier adds the default 2 min / 30 s schedule.",
+         "Upper bounds on elapsed time are wall-clock; they are asserted only when the lateness calibration stayed below slack/4 and otherwise reported inconclusive. Attempt counts are load-proof."),
  "C09": ("exploration", "runtime monitoring: differential comparison of the library parser/serialiser with an independent reference layout parser/serialiser on hostile byte strings and generated messages",
          "DESIGN.md §3 C09",
          "Held on every executed input: same acceptance set as the reference v4 layout parser, every parsed field equal to the reference slice (so a self-consistent offset swap in parser and serialiser is visible), serialise(parse(b)) == b byte for byte, exported part serialisers equal the corresponding input slices, and generated well-formed messages serialise to the reference bytes and parse back proto.Equal. Exhaustive over truncation lengths and size-field boundary grids of the sampled quotes only.",
